@@ -38,8 +38,47 @@ Inductive battr :=
 | A_len | A_ne | A_next | A_reversed | A_setitem | A_index | A_round | A_bytes
 | A_m_get | A_m_insert | A_m_items | A_m_keys | A_m_values.
 
-Scheme Equality for bname.
-Scheme Equality for battr.
+Definition bname_idx (x : bname) : nat :=
+  match x with
+  | B_int => 0 | B_float => 1 | B_complex => 2 | B_bool => 3 | B_str => 4 | B_bytes => 5
+  | B_bytearray => 6 | B_memoryview => 7 | B_NoneType => 8 | B_object => 9 | B_list => 10 | B_tuple => 11
+  | B_set => 12 | B_frozenset => 13 | B_dict => 14 | B_type => 15 | B_t_Sequence => 16 | B_t_MutableSequence => 17
+  | B_t_Iterable => 18 | B_t_Collection => 19 | B_t_Container => 20 | B_t_Mapping => 21 | B_t_MutableMapping => 22 | B_t_AbstractSet => 23
+  | B_t_MutableSet => 24 | B_t_Sized => 25 | B_t_Callable => 26 | B_t_Hashable => 27 | B_t_Reversible => 28 | B_t_Iterator => 29
+  | B_t_Generic => 30 | B_t_Protocol => 31 | B_t_List => 32 | B_t_Dict => 33 | B_t_Set => 34 | B_t_FrozenSet => 35
+  | B_t_Tuple => 36 | B_t_Type => 37 | B_t_SupportsInt => 38 | B_t_SupportsFloat => 39 | B_t_SupportsAbs => 40 | B_t_SupportsComplex => 41
+  | B_t_SupportsIndex => 42 | B_t_SupportsRound => 43 | B_t_SupportsBytes => 44
+  end.
+Definition bname_of_idx (n : nat) : bname :=
+  match n with
+  | 0 => B_int | 1 => B_float | 2 => B_complex | 3 => B_bool | 4 => B_str | 5 => B_bytes
+  | 6 => B_bytearray | 7 => B_memoryview | 8 => B_NoneType | 9 => B_object | 10 => B_list | 11 => B_tuple
+  | 12 => B_set | 13 => B_frozenset | 14 => B_dict | 15 => B_type | 16 => B_t_Sequence | 17 => B_t_MutableSequence
+  | 18 => B_t_Iterable | 19 => B_t_Collection | 20 => B_t_Container | 21 => B_t_Mapping | 22 => B_t_MutableMapping | 23 => B_t_AbstractSet
+  | 24 => B_t_MutableSet | 25 => B_t_Sized | 26 => B_t_Callable | 27 => B_t_Hashable | 28 => B_t_Reversible | 29 => B_t_Iterator
+  | 30 => B_t_Generic | 31 => B_t_Protocol | 32 => B_t_List | 33 => B_t_Dict | 34 => B_t_Set | 35 => B_t_FrozenSet
+  | 36 => B_t_Tuple | 37 => B_t_Type | 38 => B_t_SupportsInt | 39 => B_t_SupportsFloat | 40 => B_t_SupportsAbs | 41 => B_t_SupportsComplex
+  | 42 => B_t_SupportsIndex | 43 => B_t_SupportsRound
+  | _ => B_t_SupportsBytes
+  end.
+Definition bname_beq (x y : bname) : bool := Nat.eqb (bname_idx x) (bname_idx y).
+
+Definition battr_idx (x : battr) : nat :=
+  match x with
+  | A_abs => 0 | A_call => 1 | A_complex => 2 | A_contains => 3 | A_delitem => 4 | A_eq => 5
+  | A_float => 6 | A_getitem => 7 | A_hash => 8 | A_int => 9 | A_iter => 10 | A_len => 11
+  | A_ne => 12 | A_next => 13 | A_reversed => 14 | A_setitem => 15 | A_index => 16 | A_round => 17
+  | A_bytes => 18 | A_m_get => 19 | A_m_insert => 20 | A_m_items => 21 | A_m_keys => 22 | A_m_values => 23
+  end.
+Definition battr_of_idx (n : nat) : battr :=
+  match n with
+  | 0 => A_abs | 1 => A_call | 2 => A_complex | 3 => A_contains | 4 => A_delitem | 5 => A_eq
+  | 6 => A_float | 7 => A_getitem | 8 => A_hash | 9 => A_int | 10 => A_iter | 11 => A_len
+  | 12 => A_ne | 13 => A_next | 14 => A_reversed | 15 => A_setitem | 16 => A_index | 17 => A_round
+  | 18 => A_bytes | 19 => A_m_get | 20 => A_m_insert | 21 => A_m_items | 22 => A_m_keys
+  | _ => A_m_values
+  end.
+Definition battr_beq (x y : battr) : bool := Nat.eqb (battr_idx x) (battr_idx y).
 
 (* class ids: a builtin / typing class, or class number n of the generated hierarchy *)
 Inductive cid := CB (b : bname) | CU (n : nat).
